@@ -273,6 +273,16 @@ class _LpDen(Den):
                 expr.name not in env and expr.name in self.k.writers:
             return self.k.value(expr.name, (), env, self.insn, self._guard(),
                                 top=True)
+        # a bare call of a substitution rule: the rule's body, arguments
+        # substituted (again keeping a top-level reduction visible)
+        if isinstance(expr, prim.Call) and getattr(
+                expr.function, "name", None) in self.k.knl.substitutions:
+            rule = self.k.knl.substitutions[expr.function.name]
+            ps = [as_int(self.rec(p, env)) for p in expr.parameters]
+            if len(rule.arguments) == len(ps):
+                env2 = dict(env)
+                env2.update(zip(rule.arguments, ps, strict=True))
+                return self.top(rule.expression, env2)
         return self.rec(expr, env)
 
     def top_or_term(self, expr, env):
@@ -326,8 +336,7 @@ class _LpDen(Den):
         rvars, bounds = {}, []
         for iname in e.inames:
             lo, hi = self.k.iname_bounds(iname, env, self.insn)
-            v = z3.Int(iname if self.k.redn_depth == 0
-                       else f"{iname}@{self.k.redn_depth}")
+            v = z3.Int(f"rv@{self.k.redn_depth}#{len(rvars)}")
             rvars[iname] = v
             env2[iname] = v
             if self.k.is_data_dependent(lo) or self.k.is_data_dependent(hi):
